@@ -3,7 +3,7 @@
 import os, re, subprocess, sys
 V = os.path.dirname(os.path.dirname(os.path.abspath(__file__)))
 s = open(os.path.join(V, "DESIGN.md")).read()
-for mark, tool in (("SEEDTABLE", "seedtable.py"), ("HARMTABLE", "harmlesstable.py"), ("FIXTABLE", "fixtable.py")):
+for mark, tool in (("SEEDTABLE", "seedtable.py"), ("HARMTABLE", "harmlesstable.py"), ("FIXTABLE", "fixtable.py"), ("ROUNDTABLE", "roundtable.py")):
     out = subprocess.run([sys.executable, os.path.join(V, "tools", tool)], stdout=subprocess.PIPE, text=True).stdout
     s = re.sub(r"<!-- %s:BEGIN -->.*?<!-- %s:END -->" % (mark, mark),
                lambda m: "<!-- %s:BEGIN -->\n%s<!-- %s:END -->" % (mark, out, mark), s, flags=re.S)
